@@ -49,6 +49,39 @@ def scratch():
     return _scratch
 
 
+
+# --------------------------------------------------------------------------------------------
+# memoisation of a pure third-party function (speed only)
+
+_genpoly_cache = {}
+
+
+def memo_generator_polys():
+    """`ECCMan.__init__` calls reedsolo.rs_generator_poly_all(n) (all generator polynomials up to n symbols, O(n^3) in pure Python) every time a
+    tool starts: about 85% of the run time of the ecc checks.  It is a pure function of its arguments and of the field tables of the module, so
+    the harness memoises it, keyed by the arguments and by the *contents* of the tables in force at the call.  Nothing of /repo is replaced."""
+    import sys as _sys
+    for name in ("reedsolo", "reedsolo.reedsolo", "creedsolo"):
+        mod = _sys.modules.get(name)
+        if mod is None:
+            try:
+                mod = __import__(name, fromlist=["x"])
+            except Exception:
+                continue
+        f = getattr(mod, "rs_generator_poly_all", None)
+        if f is None or getattr(f, "_pff_memo", False):
+            continue
+
+        def wrapped(max_nsym, fcr=0, generator=2, _f=f, _mod=mod):
+            gl = _f.__globals__          # the tables live in the module that defines the function (init_tables rebinds them there)
+            key = (gl["__name__"], max_nsym, fcr, generator, bytes(bytearray(gl["gf_exp"])), bytes(bytearray(gl["gf_log"])))
+            if key not in _genpoly_cache:
+                _genpoly_cache[key] = _f(max_nsym, fcr=fcr, generator=generator)
+            return [bytearray(g) for g in _genpoly_cache[key]]
+        wrapped._pff_memo = True
+        mod.rs_generator_poly_all = wrapped
+
+
 # --------------------------------------------------------------------------------------------
 # Lean side
 
